@@ -250,3 +250,50 @@ func loopInstr(e *Ev) ssa.Instruction {
 	}
 	return e.At()
 }
+
+// DumpLoops lists every range loop of the loaded program with whether its body can leave the
+// loop early (discovery aid for the sweep table).
+func DumpLoops(p *Prog) {
+	for _, fn := range p.Funcs {
+		for _, l := range p.rangeLoops(fn) {
+			ex := ""
+			for _, e := range l.exits {
+				ex += " EXIT@" + p.Pos(e.Pos())
+			}
+			fmt.Printf("AST %s\t%s\t%s\t%s\n", p.Pos(l.at.Pos()), p.FuncName(fn), l.typ, ex)
+		}
+		EachInstr(fn, func(in ssa.Instruction) {
+			rng, ok := in.(*ssa.Range)
+			if !ok {
+				return
+			}
+			var head *ssa.BasicBlock
+			for _, ref := range *rng.Referrers() {
+				if nx, ok := ref.(*ssa.Next); ok {
+					head = nx.Block()
+				}
+			}
+			if head == nil {
+				return
+			}
+			_, body := loopBody(head)
+			early := ""
+			for b := range body {
+				if b == head {
+					continue
+				}
+				for _, s := range b.Succs {
+					if !body[s] && !isPanicBlock(s) {
+						early = "EARLY-EXIT " + p.InstrPos(b.Instrs[len(b.Instrs)-1])
+					}
+				}
+				for _, in := range b.Instrs {
+					if _, ok := in.(*ssa.Return); ok {
+						early = "RETURN " + p.InstrPos(in)
+					}
+				}
+			}
+			fmt.Printf("%s\t%s\trange %s\t%s\n", p.InstrPos(rng), p.FuncName(fn), Desc(rng.X), early)
+		})
+	}
+}
